@@ -46,7 +46,9 @@ Definition J (s : cst) (a : action) : Prop :=
                    \/ ((pc s = PClock1 \/ (exists t, pc s = PClock2 t) \/ (exists d, pc s = PClock3 d))
                        /\ deadline s <> None /\ (c_in (cm s) || oref s || eref s = true))
                    \/ (pc s = PEndClock /\ deadline s <> None)
-  | Ret _ => pc s = PReturned
+  | Ret e => pc s = PReturned /\
+             (e = None -> limit_reached s = true
+                          \/ (c_in (cm s) = false /\ oref s = false /\ eref s = false))
   | Stuck => False
   end.
 
@@ -90,15 +92,20 @@ Proof.
   - destruct (io_out_spec _ _ _ _ _ H) as [H1 [H2 _]]. auto.
 Qed.
 
-Lemma ret_spec s e : data (fst (ret s e)) = data s /\ J (fst (ret s e)) (snd (ret s e)).
-Proof. split; reflexivity. Qed.
+Lemma ret_spec s e : data (fst (ret s (Some e))) = data s /\ J (fst (ret s (Some e))) (snd (ret s (Some e))).
+Proof. split; [reflexivity|]. cbn [J ret fst snd set_pc pc]. split; [reflexivity|discriminate]. Qed.
+
+Lemma ret_none_spec s : limit_reached s = true \/ (c_in (cm s) = false /\ oref s = false /\ eref s = false) ->
+  data (fst (ret s None)) = data s /\ J (fst (ret s None)) (snd (ret s None)).
+Proof. intros H. split; [reflexivity|]. cbn [J ret fst snd set_pc pc]. split; [reflexivity|]. intros _. exact H. Qed.
 
 (* the loop head never gets stuck: in the single-stream shortcut the one guarded I/O step does issue its call *)
 Lemma from_head_spec s : data (fst (from_head s)) = data s /\ J (fst (from_head s)) (snd (from_head s)).
 Proof.
   unfold from_head.
-  destruct (limit_reached s) eqn:L; [apply ret_spec|].
-  destruct (negb (c_in (cm s)) && negb (oref s) && negb (eref s)) eqn:N; [apply ret_spec|].
+  destruct (limit_reached s) eqn:L; [apply ret_none_spec; left; exact L|].
+  destruct (negb (c_in (cm s)) && negb (oref s) && negb (eref s)) eqn:N.
+  { apply ret_none_spec. right. destruct (c_in (cm s)), (oref s), (eref s); try discriminate; auto. }
   destruct (timed_out s); [apply ret_spec|].
   destruct (deadline s) eqn:D.
   - split; [reflexivity|]. cbn [J fst snd set_pc pc deadline cm oref eref]. right. left.
